@@ -4,15 +4,17 @@
 // @config name=compact rustflags='--cfg kuznyechik_backend="compact_soft"'
 // @config name=compact_zeroize features=zeroize rustflags='--cfg kuznyechik_backend="compact_soft"'
 use super::*;
-use backends::__vp_compact::{uf_expand, uf_lsx, uf_lsx_inv};
+use backends::__vp_compact::uf_expand;
 
 macro_rules! with_key_stubs { ($i:item) => {
     #[kani::stub(backends::expand, uf_expand)]
     $i
 }; }
+const ENC_PAR: usize = 1;
+const DEC_PAR: usize = 1; // width 1 in both directions: no parallel functions, the dispatch goes block by block
 macro_rules! with_block_stubs { ($i:item) => {
-    #[kani::stub(backends::lsx, uf_lsx)]
-    #[kani::stub(backends::lsx_inv, uf_lsx_inv)]
+    #[kani::stub(<backends::EncBackend<'_> as cipher::BlockCipherEncBackend>::encrypt_block, uf_enc_block)]
+    #[kani::stub(<backends::DecBackend<'_> as cipher::BlockCipherDecBackend>::decrypt_block, uf_dec_block)]
     $i
 }; }
 macro_rules! with_spec_stubs { ($i:item) => {
@@ -23,12 +25,161 @@ macro_rules! with_spec_stubs { ($i:item) => {
 }; }
 include!("@VERIF@/contracts/kuznyechik/api_common.inc");
 
-// NOT REGISTERED (timeout 600 s in the final run; harness kept for the next round): ob name=a_api_enc cfg=compact props=C07,C20 fn=kuznyechik::Kuznyechik::new,kuznyechik::Kuznyechik::encrypt_with_backend,kuznyechik::KuznyechikEnc::new,kuznyechik::KuznyechikEnc::encrypt_with_backend uses=c_expand,c_enc_block timeout=600
+// ---------------------------------------------------------------- C07 public API, C01 round trip (modular)
+// The public entry points are proved against the contracts of the backend functions they call (with_spec_stubs!: key
+// expansion := the standard's key schedule, key inversion := spec_inv_keys, transform / lsx / lsx_inv := their contracts),
+// and the reference functions L, L^-1, key schedule that then occur on both sides are uninterpreted (lemmas.rs: `aipuf`
+// = additive inverse pair, `kuf`), so these are statements about the plumbing between `new`, the conversions, the
+// backend dispatch and the block functions, for every key and block.
+use crate::__vp_lemmas::{aipuf, kuf, uf_lsx as ref_uf_lsx, uf_x_linv_sinv as ref_uf_x_linv_sinv};
+use bcref::kuznyechik as kz;
+
+// encryption: the reference LSX that occurs on both sides is the transcript oracle lemmas.rs `tro` (the standard's E is
+// recorded, each instance must ask the same nine questions); the additive inverse pair used below for decryption made
+// this harness time out
+with_spec_stubs! {
+    #[kani::proof]
+    #[kani::stub(bcref::kuznyechik::key_schedule, kuf::key_schedule)]
+    #[kani::stub(bcref::kuznyechik::lsx, crate::__vp_lemmas::tro::lsx)]
+    #[kani::unwind(41)]
+    fn a_api_enc() {
+        use crate::__vp_lemmas::tro;
+        let k: [u8; 32] = kani::any();
+        let b: [u8; 16] = kani::any();
+        let spec = kz::encrypt(&k, &b);
+        assert!(tro::recorded() == 9);
+        let c = Kuznyechik::new(&Array(k));
+        let e = KuznyechikEnc::new(&Array(k));
+        tro::start_replay();
+        let mut blk = Array(b);
+        cipher::BlockCipherEncrypt::encrypt_block(&c, &mut blk);
+        assert!(tro::all_replayed());
+        assert!(kz::eq(&blk.0, &spec));
+        tro::start_replay();
+        let mut blk = Array(b);
+        cipher::BlockCipherEncrypt::encrypt_block(&e, &mut blk);
+        assert!(tro::all_replayed());
+        assert!(kz::eq(&blk.0, &spec));
+    }
+}
+
+with_spec_stubs! {
+    #[kani::proof]
+    #[kani::stub(bcref::kuznyechik::key_schedule, kuf::key_schedule)]
+    #[kani::stub(bcref::kuznyechik::l, aipuf::fwd)]
+    #[kani::stub(bcref::kuznyechik::l_inv, aipuf::bwd)]
+    #[kani::unwind(151)]
+    fn a_api_dec() {
+        // L^-1 calls: 0..8 the standard's D (arguments K_{10-i} ^ ..), 9..16 key inversion L^-1(K_2..K_9), 17..25 the backend;
+        // call 17 + i (i = 1..8) has argument = argument i ^ argument (17 - i)  (additivity of L^-1; unused by the compact backend)
+        let mut i = 1;
+        while i <= 8 { aipuf::hint(17 + i, i, 17 - i); i += 1; }
+        let k: [u8; 32] = kani::any();
+        let b: [u8; 16] = kani::any();
+        let spec = kz::decrypt(&k, &b);
+        let c = Kuznyechik::new(&Array(k));
+        let mut blk = Array(b);
+        cipher::BlockCipherDecrypt::decrypt_block(&c, &mut blk);
+        assert!(kz::eq(&blk.0, &spec));
+    }
+
+}
+with_spec_stubs! {
+    #[kani::proof]
+    #[kani::stub(bcref::kuznyechik::key_schedule, kuf::key_schedule)]
+    #[kani::stub(bcref::kuznyechik::l, aipuf::fwd)]
+    #[kani::stub(bcref::kuznyechik::l_inv, aipuf::bwd)]
+    #[kani::unwind(151)]
+    fn a_api_dec_only() {
+        // L^-1 calls: 0..8 the standard's D (arguments K_{10-i} ^ ..), 9..16 key inversion L^-1(K_2..K_9), 17..25 the backend;
+        // call 17 + i (i = 1..8) has argument = argument i ^ argument (17 - i)  (additivity of L^-1; unused by the compact backend)
+        let mut i = 1;
+        while i <= 8 { aipuf::hint(17 + i, i, 17 - i); i += 1; }
+        let k: [u8; 32] = kani::any();
+        let b: [u8; 16] = kani::any();
+        let spec = kz::decrypt(&k, &b);
+        let d = KuznyechikDec::new(&Array(k));
+        let mut blk = Array(b);
+        cipher::BlockCipherDecrypt::decrypt_block(&d, &mut blk);
+        assert!(kz::eq(&blk.0, &spec));
+    }
+
+}
+
+// (registered for the compact backend, whose block functions are compositions of lsx / lsx_inv; for the table backends
+// C01 rests on conformance + lemmas.l_ref_roundtrip, see api_tables.inc)
+// C01 for every value of the ten ENCRYPTION round keys (not only reachable ones): the combined cipher built from them by
+// the crate's own conversion, and the Enc / Dec halves.
+with_spec_stubs! {
+    #[kani::proof]
+    #[kani::stub(bcref::kuznyechik::lsx, ref_uf_lsx)]
+    #[kani::stub(bcref::kuznyechik::x_linv_sinv, ref_uf_x_linv_sinv)]
+    #[kani::unwind(151)]
+    fn r_roundtrip() {
+        let e = any_e();
+        let c = Kuznyechik::from(&e);
+        let b: [u8; 16] = kani::any();
+        let mut blk = Array(b);
+        cipher::BlockCipherEncrypt::encrypt_block(&c, &mut blk);
+        cipher::BlockCipherDecrypt::decrypt_block(&c, &mut blk);
+        assert!(kz::eq(&blk.0, &b));
+    }
+}
+with_spec_stubs! {
+    #[kani::proof]
+    #[kani::stub(bcref::kuznyechik::lsx, ref_uf_lsx)]
+    #[kani::stub(bcref::kuznyechik::x_linv_sinv, ref_uf_x_linv_sinv)]
+    #[kani::unwind(151)]
+    fn r_roundtrip_rev() {
+        let e = any_e();
+        let c = Kuznyechik::from(&e);
+        let b: [u8; 16] = kani::any();
+        let mut blk = Array(b);
+        cipher::BlockCipherDecrypt::decrypt_block(&c, &mut blk);
+        cipher::BlockCipherEncrypt::encrypt_block(&c, &mut blk);
+        assert!(kz::eq(&blk.0, &b));
+    }
+}
+// (one order per harness: both orders in one harness timed out)
+with_spec_stubs! {
+    #[kani::proof]
+    #[kani::stub(bcref::kuznyechik::lsx, ref_uf_lsx)]
+    #[kani::stub(bcref::kuznyechik::x_linv_sinv, ref_uf_x_linv_sinv)]
+    #[kani::unwind(151)]
+    fn r_halves_ed() {
+        let e = any_e();
+        let d = KuznyechikDec::from(&e);
+        let b: [u8; 16] = kani::any();
+        let mut blk = Array(b);
+        cipher::BlockCipherEncrypt::encrypt_block(&e, &mut blk);
+        cipher::BlockCipherDecrypt::decrypt_block(&d, &mut blk);
+        assert!(kz::eq(&blk.0, &b));
+    }
+}
+with_spec_stubs! {
+    #[kani::proof]
+    #[kani::stub(bcref::kuznyechik::lsx, ref_uf_lsx)]
+    #[kani::stub(bcref::kuznyechik::x_linv_sinv, ref_uf_x_linv_sinv)]
+    #[kani::unwind(151)]
+    fn r_halves_de() {
+        let e = any_e();
+        let d = KuznyechikDec::from(&e);
+        let b: [u8; 16] = kani::any();
+        let mut blk = Array(b);
+        cipher::BlockCipherDecrypt::decrypt_block(&d, &mut blk);
+        cipher::BlockCipherEncrypt::encrypt_block(&e, &mut blk);
+        assert!(kz::eq(&blk.0, &b));
+    }
+}
+
+
+// @ob name=a_api_enc cfg=compact props=C07,C20 fn=kuznyechik::Kuznyechik::new,kuznyechik::Kuznyechik::encrypt_with_backend,kuznyechik::KuznyechikEnc::new,kuznyechik::KuznyechikEnc::encrypt_with_backend uses=c_expand,c_lsx timeout=300
 // @ob name=a_api_dec cfg=compact tier=thorough props=C07,C20 fn=kuznyechik::Kuznyechik::new,kuznyechik::Kuznyechik::decrypt_with_backend uses=c_expand,c_dec_block timeout=1800
 // @ob name=a_api_dec_only cfg=compact tier=thorough props=C07,C20 fn=kuznyechik::KuznyechikDec::new,kuznyechik::KuznyechikDec::decrypt_with_backend uses=c_expand,c_dec_block timeout=1800
 // @ob name=r_roundtrip cfg=compact props=C01 kind=lemma fn=kuznyechik::Kuznyechik::encrypt_with_backend,kuznyechik::Kuznyechik::decrypt_with_backend,kuznyechik::Kuznyechik::from uses=c_lsx,c_lsx_inv,l_ls_inverse timeout=600
 // @ob name=r_roundtrip_rev cfg=compact props=C01 kind=lemma fn=kuznyechik::Kuznyechik::encrypt_with_backend,kuznyechik::Kuznyechik::decrypt_with_backend,kuznyechik::Kuznyechik::from uses=c_lsx,c_lsx_inv,l_ls_inverse timeout=600
-// NOT REGISTERED (timeout 600 s in the final run; harness kept for the next round): ob name=r_roundtrip_halves cfg=compact props=C01,C12 kind=lemma fn=kuznyechik::KuznyechikEnc::encrypt_with_backend,kuznyechik::KuznyechikDec::decrypt_with_backend,kuznyechik::KuznyechikDec::from uses=c_lsx,c_lsx_inv,l_ls_inverse timeout=600
+// @ob name=r_halves_ed cfg=compact props=C01,C12 kind=lemma fn=kuznyechik::KuznyechikEnc::encrypt_with_backend,kuznyechik::KuznyechikDec::decrypt_with_backend,kuznyechik::KuznyechikDec::from uses=c_lsx,c_lsx_inv,l_ls_inverse timeout=300
+// @ob name=r_halves_de cfg=compact props=C01,C12 kind=lemma fn=kuznyechik::KuznyechikEnc::encrypt_with_backend,kuznyechik::KuznyechikDec::decrypt_with_backend,kuznyechik::KuznyechikDec::from uses=c_lsx,c_lsx_inv,l_ls_inverse timeout=300
 // @ob name=k_len cfg=compact props=C11 kind=bounded bound="slice length <= 300" fn=kuznyechik::Kuznyechik::new_from_slice uses=c_expand timeout=300
 // @ob name=k_len_enc cfg=compact props=C11 kind=bounded bound="slice length <= 300" fn=kuznyechik::KuznyechikEnc::new_from_slice uses=c_expand timeout=300
 // @ob name=k_len_dec cfg=compact props=C11 kind=bounded bound="slice length <= 300" fn=kuznyechik::KuznyechikDec::new_from_slice uses=c_expand timeout=300
@@ -47,20 +198,20 @@ include!("@VERIF@/contracts/kuznyechik/api_common.inc");
 // @ob name=z_kuznyechik_dec_from_ref cfg=compact_zeroize props=C16 fn=kuznyechik::KuznyechikDec::drop,kuznyechik::KuznyechikDec::from timeout=300
 // @ob name=z_kuznyechik_dec_from_val cfg=compact_zeroize props=C16 fn=kuznyechik::KuznyechikDec::drop,kuznyechik::KuznyechikDec::from timeout=300
 
-// parallel width 1 in both directions: n = 0, 1, 3
-// @ob name=m_enc_0 cfg=compact props=C04,C15 kind=bounded bound="n = 0 block(s)" fn=kuznyechik::Kuznyechik::encrypt_with_backend,kuznyechik::compact_soft::backends::EncBackend::encrypt_block uses=c_lsx timeout=300
+// parallel width 1 in both directions: n = 0, 1, 3 (block functions replaced by uninterpreted stand-ins, see api_common.inc)
+// @ob name=m_enc_0 cfg=compact props=C04,C15 kind=bounded bound="n = 0 block(s)" fn=kuznyechik::Kuznyechik::encrypt_with_backend uses=c_enc_block timeout=300
 multi_enc!(m_enc_0, Kuznyechik, SZ, 0);
-// @ob name=m_enc_1 cfg=compact tier=thorough props=C04,C15 kind=bounded bound="n = 1 block(s)" fn=kuznyechik::Kuznyechik::encrypt_with_backend,kuznyechik::compact_soft::backends::EncBackend::encrypt_block uses=c_lsx timeout=1800
+// @ob name=m_enc_1 cfg=compact props=C04,C15 kind=bounded bound="n = 1 block(s)" fn=kuznyechik::Kuznyechik::encrypt_with_backend uses=c_enc_block timeout=300
 multi_enc!(m_enc_1, Kuznyechik, SZ, 1);
-// NOT REGISTERED (out of memory (32 GB) in the final run; harness kept for the next round): ob name=m_enc_3 cfg=compact props=C04,C15 kind=bounded bound="n = 3 block(s)" fn=kuznyechik::Kuznyechik::encrypt_with_backend,kuznyechik::compact_soft::backends::EncBackend::encrypt_block uses=c_lsx timeout=600
+// @ob name=m_enc_3 cfg=compact props=C04,C15 kind=bounded bound="n = 3 block(s)" fn=kuznyechik::Kuznyechik::encrypt_with_backend uses=c_enc_block timeout=300
 multi_enc!(m_enc_3, Kuznyechik, SZ, 3);
-// NOT REGISTERED (timeout 600 s in the final run; harness kept for the next round): ob name=m_enconly_3 cfg=compact props=C04,C15 kind=bounded bound="n = 3 block(s)" fn=kuznyechik::KuznyechikEnc::encrypt_with_backend,kuznyechik::compact_soft::backends::EncBackend::encrypt_block uses=c_lsx timeout=600
+// @ob name=m_enconly_3 cfg=compact props=C04,C15 kind=bounded bound="n = 3 block(s)" fn=kuznyechik::KuznyechikEnc::encrypt_with_backend uses=c_enc_block timeout=300
 multi_enc!(m_enconly_3, KuznyechikEnc, SZE, 3);
-// @ob name=m_dec_0 cfg=compact props=C04,C15 kind=bounded bound="n = 0 block(s)" fn=kuznyechik::Kuznyechik::decrypt_with_backend,kuznyechik::compact_soft::backends::DecBackend::decrypt_block uses=c_lsx_inv timeout=300
+// @ob name=m_dec_0 cfg=compact props=C04,C15 kind=bounded bound="n = 0 block(s)" fn=kuznyechik::Kuznyechik::decrypt_with_backend uses=c_dec_block timeout=300
 multi_dec!(m_dec_0, Kuznyechik, SZ, 0);
-// @ob name=m_dec_1 cfg=compact props=C04,C15 kind=bounded bound="n = 1 block(s)" fn=kuznyechik::Kuznyechik::decrypt_with_backend,kuznyechik::compact_soft::backends::DecBackend::decrypt_block uses=c_lsx_inv timeout=300
+// @ob name=m_dec_1 cfg=compact props=C04,C15 kind=bounded bound="n = 1 block(s)" fn=kuznyechik::Kuznyechik::decrypt_with_backend uses=c_dec_block timeout=300
 multi_dec!(m_dec_1, Kuznyechik, SZ, 1);
-// NOT REGISTERED (out of memory (32 GB) in the final run; harness kept for the next round): ob name=m_dec_3 cfg=compact props=C04,C15 kind=bounded bound="n = 3 block(s)" fn=kuznyechik::Kuznyechik::decrypt_with_backend,kuznyechik::compact_soft::backends::DecBackend::decrypt_block uses=c_lsx_inv timeout=600
+// @ob name=m_dec_3 cfg=compact props=C04,C15 kind=bounded bound="n = 3 block(s)" fn=kuznyechik::Kuznyechik::decrypt_with_backend uses=c_dec_block timeout=300
 multi_dec!(m_dec_3, Kuznyechik, SZ, 3);
-// NOT REGISTERED (out of memory (32 GB) in the final run; harness kept for the next round): ob name=m_deconly_3 cfg=compact props=C04,C15 kind=bounded bound="n = 3 block(s)" fn=kuznyechik::KuznyechikDec::decrypt_with_backend,kuznyechik::compact_soft::backends::DecBackend::decrypt_block uses=c_lsx_inv timeout=600
+// @ob name=m_deconly_3 cfg=compact props=C04,C15 kind=bounded bound="n = 3 block(s)" fn=kuznyechik::KuznyechikDec::decrypt_with_backend uses=c_dec_block timeout=300
 multi_dec!(m_deconly_3, KuznyechikDec, SZD, 3);
